@@ -390,6 +390,8 @@ void GeneratorProfile::GeneratorProfileImpl::loadProfile(GeneratorProfile::Profi
         mConditionalOperatorElseString = ":[ELSE_STATEMENT]";
 
         mHasConditionalOperator = true;
+        mPiecewiseIfString = "";
+        mPiecewiseElseString = "";
 
         // Constants.
 
@@ -819,6 +821,8 @@ void GeneratorProfile::GeneratorProfileImpl::loadProfile(GeneratorProfile::Profi
         mConditionalOperatorElseString = " else [ELSE_STATEMENT]";
 
         mHasConditionalOperator = true;
+        mPiecewiseIfString = "";
+        mPiecewiseElseString = "";
 
         // Constants.
 
